@@ -217,6 +217,35 @@ func main() {
 		cov["fidelity_round_trips_through_buffered_path"] = st.buffered
 		cov["fidelity_round_trips_with_reused_destinations"] = st.reused
 		fmt.Printf("fidelity: %d combos, %d streams, %d round trips (%d buffered), %d reads, %.1fs\n", len(units), encodes, st.decodes, st.buffered, st.reads, r.Elapsed().Seconds())
+
+		// batch-size histories (scratch frame shrink/grow) and batches of 2^k +-1 rows
+		over := func() bool { return r.OverBudget(budget) }
+		var st2 fidStats
+		var ss sizeStats
+		srule, sskip := runSizeFamily(r, workers, &st2, &ss, outcomes, over)
+		rule += srule
+		if sskip > 0 {
+			r.NotExhaustive(fmt.Sprintf("size family: %d units skipped (soft budget %v)", sskip, budget))
+		}
+		evals += st2.decodes
+		nontrivial += ss.shrinkGrow
+		cov["size_family_round_trips"] = st2.decodes
+		cov["size_family_reads_checked"] = st2.reads
+		cov["size_family_round_trips_through_buffered_path"] = st2.buffered
+		cov["size_family_round_trips_shrink_then_larger_batch"] = ss.shrinkGrow
+		fmt.Printf("size family: %d round trips (%d buffered, %d shrink-then-larger), %d reads, %.1fs\n", st2.decodes, st2.buffered, ss.shrinkGrow, st2.reads, r.Elapsed().Seconds())
+		var ls largeStats
+		lrule, lskip := runLargeFamily(r, workers, &ls, outcomes, over)
+		rule += lrule
+		if lskip > 0 {
+			r.NotExhaustive(fmt.Sprintf("large-batch family: %d units skipped (soft budget %v)", lskip, budget))
+		}
+		evals += ls.roundTrips
+		nontrivial += ls.buffered
+		cov["large_batch_round_trips"] = ls.roundTrips
+		cov["large_batch_rows_compared"] = ls.rows
+		cov["large_batch_round_trips_batch_larger_than_destination"] = ls.buffered
+		fmt.Printf("large batches: %d round trips (%d with batch > destination), %d rows, %.1fs\n", ls.roundTrips, ls.buffered, ls.rows, r.Elapsed().Seconds())
 	}
 
 	// ---------------- (b) corruption ----------------
